@@ -140,6 +140,7 @@ impl State {
             "eval" => self.run_eval(case),
             "history" => self.run_history(case),
             "impl" => self.run_impl(case),
+            "value_api" => self.run_value_api(case),
             _ => {
                 self.count("unknown_kind");
             },
@@ -452,6 +453,89 @@ impl State {
                 }
             }
         }
+    }
+
+    // ------------------------------------------------------------------------------------------
+    // kind "value_api": one accessor of `Value` on one value (MC_ValueApi.tla)
+    // ------------------------------------------------------------------------------------------
+    fn run_value_api(&mut self, case: &J) {
+        let acc = case["acc"].as_str().unwrap_or("");
+        self.count("value_api_cases");
+        self.distinct("value_api", case);
+        let v = match dec_value(&case["v"]) {
+            Some(v) => v,
+            None => {
+                self.bad_lines += 1;
+                return;
+            },
+        };
+        let type_name = |v: &V| match ValueType::from(v) {
+            ValueType::String => "string",
+            ValueType::Float => "float",
+            ValueType::Int => "int",
+            ValueType::Boolean => "boolean",
+            ValueType::Tuple => "tuple",
+            ValueType::Empty => "empty",
+        };
+        let r = guard(|| -> Result<V, E> {
+            use std::convert::TryFrom;
+            Ok(match acc {
+                "value" => v.clone(),
+                "string" => {
+                    let a = v.as_string().map(Value::String)?;
+                    // the TryFrom impl and the predicate agree with the accessor
+                    if String::try_from(v.clone()).is_ok() != v.is_string() {
+                        return Err(EvalexprError::CustomMessage("TryFrom<Value> for String disagrees with is_string".into()));
+                    }
+                    a
+                },
+                "int" => v.as_int().map(Value::Int)?,
+                "float" => v.as_float().map(Value::Float)?,
+                "number" => v.as_number().map(Value::Float)?,
+                "boolean" => {
+                    if bool::try_from(v.clone()).is_ok() != v.is_boolean() {
+                        return Err(EvalexprError::CustomMessage("TryFrom<Value> for bool disagrees with is_boolean".into()));
+                    }
+                    v.as_boolean().map(Value::Boolean)?
+                },
+                "tuple" => v.as_tuple().map(Value::Tuple)?,
+                "empty" => v.as_empty().map(|_| Value::Empty)?,
+                "fixed2" => v.as_fixed_len_tuple(2).map(Value::Tuple)?,
+                "ranged23" => v.as_ranged_len_tuple(2..=3).map(Value::Tuple)?,
+                "type" => Value::String(type_name(&v).to_string()),
+                "str_from" => Value::String(v.str_from()),
+                other => return Err(EvalexprError::CustomMessage(format!("harness: unknown accessor {other}"))),
+            })
+        });
+        let r = match r {
+            Ok(r) => r,
+            Err(p) => {
+                self.fail("panic", format!("Value accessor {acc} on {v:?} panicked at {p}"), case, json!({"panic": p}));
+                return;
+            },
+        };
+        // the is_* predicates are the Ok-ness of the corresponding accessor
+        let pred = match acc {
+            "string" => Some(v.is_string()),
+            "int" => Some(v.is_int()),
+            "float" => Some(v.is_float()),
+            "number" => Some(v.is_number()),
+            "boolean" => Some(v.is_boolean()),
+            "tuple" => Some(v.is_tuple()),
+            "empty" => Some(v.is_empty()),
+            _ => None,
+        };
+        if let Some(p) = pred {
+            if p != r.is_ok() {
+                self.fail("value_api", format!("is_{acc}({v:?}) = {p} but as_{acc} is {}", if r.is_ok() { "Ok" } else { "Err" }), case, json!(null));
+            }
+        }
+        let pats = case["allowed"].as_array().cloned().unwrap_or_default();
+        if !pats.iter().any(|p| matches(p, &r, true)) {
+            self.fail("value_api", format!("{acc} of {v:?}: observed {}, the specification allows {}", enc_obs(&r)["text"].as_str().unwrap_or(""),
+                                           brief_patterns(&pats)), case, enc_obs(&r));
+        }
+        self.sample("value_api", json!({"accessor": acc, "value": format!("{v:?}"), "observed": enc_obs(&r)["text"]}));
     }
 
     // ------------------------------------------------------------------------------------------
